@@ -109,7 +109,9 @@ class Reverter(object):
             )
 
         if self.obj.operation_type == Operation.DELETE:
-            self.session.delete(self.version_parent)
+            # Nothing to do if the parent object is already gone
+            if self.version_parent is not None:
+                self.session.delete(self.version_parent)
             return
 
         self.visited_objects.append(self.obj)
